@@ -10,6 +10,7 @@ import (
 	"encoding/hex"
 	"encoding/json"
 	"fmt"
+	ethcommon "github.com/ethereum/go-ethereum/common"
 	"math/big"
 	"math/rand"
 	"os"
@@ -185,7 +186,25 @@ func safeExec(p *Property, c Case) (outs []string, fails []Failure, tags []strin
 		}
 	}()
 	outs, fails, tags = p.Exec(c)
+	// process-wide "constants" that are in fact mutable values (*big.Int): code that writes through one of them changes
+	// the behaviour of everything executed afterwards in this process, and of no other process
+	for _, g := range sharedConstants {
+		if g.v.Cmp(big.NewInt(g.want)) != 0 {
+			fails = append(fails, Failure{Signature: p.ID + ":process-global-constant-overwritten", What: fmt.Sprintf("%s is %s after this case (a shared *big.Int was used as the receiver of an in-place operation): what the node computes from now on depends on the life of the process", g.name, g.v), Case: c})
+			g.v.SetInt64(g.want)
+		}
+	}
 	return
+}
+
+var sharedConstants = []struct {
+	name string
+	v    *big.Int
+	want int64
+}{
+	{"go-ethereum common.Big0", ethcommon.Big0, 0}, {"go-ethereum common.Big1", ethcommon.Big1, 1}, {"go-ethereum common.Big2", ethcommon.Big2, 2},
+	{"go-ethereum common.Big3", ethcommon.Big3, 3}, {"go-ethereum common.Big32", ethcommon.Big32, 32}, {"go-ethereum common.Big256", ethcommon.Big256, 256},
+	{"go-ethereum common.Big257", ethcommon.Big257, 257},
 }
 
 // shrink: delta debugging over op lines, keeping a failure with the same signature.
